@@ -62,7 +62,7 @@ def ob_wig_summary(ctx, res):
                 f.get("bases_covered") == "0" and f.get("sum") in ("0.0", "0") and f.get("sum_squares") in ("0.0", "0")):
             res.fail("wigSummary/%s/seed-values" % impl, lits[0], "per-chromosome summary must start at counts 0, sums 0, min=f64::MAX, max=f64::MIN; got %s" % f)
             continue
-        de = ctx.ast.fn(WW, "destroy", impl=impl)
+        de = ctx.ast.fn(WW, "destroy", impl=impl, inline=True)
         ifs = [n for n in walk_no_nested_fn(de.body) if n.k == "if" and "total_items == 0" in up(n["cond"])]
         resets = [n for n in walk_no_nested_fn(de.body) if n.k == "assign" and re.search(r"\.(min_val|max_val)$", up(n["l"]))]
         if len(ifs) != 1 or len(resets) != 2 or not all(ifs[0]["then"] is _encl_block(r_) for r_ in resets) or any(up(strip(r_["r"])) != "0.0" for r_ in resets):
